@@ -189,6 +189,12 @@ def gen_leaf(rng, role):
     fcls = rng.choice([File, File, File, IFile, ContentFile])
     dcls = rng.choice([Dir, Dir, IDir, ContentDir])
     k = rng.random()
+    if rng.random() < 0.12:
+        # the two sides spelled differently although they would be one file if both were resolved in the harness cwd:
+        # relative vs absolute, "./x" vs "x" (with tempdir=True the relative side lives in the temp dir)
+        n = rng.choice(["data.txt", "res", "in put", "sub/x.txt", "it's"])
+        a, b = rng.choice([(os.path.abspath(n), n), (os.path.abspath(n), "./" + n), ("./" + n, n), (n, "./" + n), (n, os.path.abspath(n))])
+        return rng.choice([fcls, fcls, dcls])(a).stage(b)
     if role == "in":
         if k < 0.45:
             return fcls(gen_path(rng)).stage(gen_path(rng))
@@ -380,7 +386,7 @@ def gen_script_case(rng):
     if rng.random() < 0.3:
         inputs = [inputs] if not isinstance(inputs, (list, tuple, dict)) else inputs
     outputs = "NULL" if rng.random() < 0.12 else gen_nested(rng, "out", rng.choice([0, 1, 2, 3]))
-    return dict(cmd=cmd, inputs=inputs, outputs=outputs, tempdir=rng.random() < 0.2, as_mount=rng.random() < 0.1)
+    return dict(cmd=cmd, inputs=inputs, outputs=outputs, tempdir=rng.random() < 0.35, as_mount=rng.random() < 0.1)
 
 
 def leaves_py(v):
@@ -433,19 +439,38 @@ def check_scripts(ctx, cases):
             ctx.mismatch("script(): (full command, input args, preprocessed outputs) differ from model scriptCall", case=case, model=mo, impl=impl)
         if kwargs["temp_path"]:
             shutil.rmtree(kwargs["temp_path"], ignore_errors=True)
-        # ---- oracle on the real code: ordering of the command parts
+        # ---- oracle on the real code: ordering of the command parts, and no staging pair skipped.
+        # Expected commands are derived here, not taken from render_stage/render_unstage: a pair must be copied whenever
+        # its two sides are different files *in the directory the command runs in* (the temp dir when tempdir=True).
         cmd_s = shlex.join(c["cmd"]) if isinstance(c["cmd"], list) else c["cmd"]
         w = get_wrapped_command(prepare_command(cmd_s))
         pos = full.find(w)
-        stage_cmds = [x.render_stage(c["as_mount"]) for x in in_leaves]
-        unstage_cmds = [x.render_unstage(c["as_mount"]) for x in leaves_py(outs) if isinstance(x, Staging)]
+        run_cwd = kwargs["temp_path"] if c["tempdir"] else os.getcwd()
+
+        def resolve(path, run_cwd=run_cwd):
+            return os.path.normpath(os.path.join(run_cwd, path))
+
+        def expected(x, unstage):
+            from redun.file import StagingDir
+            src, dst = (x.local.path, x.remote.path) if unstage else (x.remote.path, x.local.path)
+            cp = "cp %s%s %s" % ("-r " if isinstance(x, StagingDir) else "", shlex.quote(src), shlex.quote(dst))
+            return [cp] if resolve(src) != resolve(dst) else [cp, ""]
+        want_before = ([[shlex.join(["cd", kwargs["temp_path"]])]] if c["tempdir"] else []) + [expected(x, False) for x in in_leaves]
+        want_after = [expected(x, True) for x in leaves_py(outs) if isinstance(x, Staging)]
         before, after = full[:pos], full[pos + len(w):]
-        ok = pos >= 0 and full.count(w) == 1
-        ok = ok and before == "".join(p + "\n" for p in ([shlex.join(["cd", kwargs["temp_path"]])] if c["tempdir"] else []) + stage_cmds)
-        ok = ok and after == "".join("\n" + p for p in unstage_cmds)
+        got_before = before.split("\n")[:-1] if pos > 0 else []
+        got_after = after.split("\n")[1:] if after else []
+        ok = pos >= 0 and full.count(w) == 1 and (before == "" or before.endswith("\n")) and (after == "" or after.startswith("\n"))
+        ok = ok and len(got_before) == len(want_before) and len(got_after) == len(want_after)
+        if ok:
+            skipped = [wa[0] for g, wa in zip(got_before + got_after, want_before + want_after) if g == "" and wa == [wa[0]]]
+            if skipped:
+                ctx.violation("C29-staging-skipped", "script() renders no copy command for a staging pair whose two sides are different files "
+                              "in the directory the command runs in", case=dict(case, full_command=full), expected=skipped, actual="no command")
+            ok = all(g in wa for g, wa in zip(got_before + got_after, want_before + want_after) if not (g == "" and wa == [wa[0]]))
         if not ok:
             ctx.violation("C29-stage-order", "full command is not [cd] + stage(inputs) + wrapped command + unstage(outputs)", case=case,
-                          expected={"before": stage_cmds, "after": unstage_cmds}, actual=full)
+                          expected={"before": want_before, "after": want_after}, actual=full)
         # every output File other than '-' must be (self-)staged; outputs keep their shape
         result = object()
         post_reqs.append("post " + to_nv(outs))
@@ -528,17 +553,59 @@ def shape_diff(orig, final, result):
     return None if final == orig else "leaf %s -> %s" % (show_v(orig), show_v(final))
 
 
+E2E_NAMES = ["in put", "it's", "a$b", "pl@in", "semi;colon", "é", "q\"uote", "star*", "back`tick`", "EOF"]
+
+# fixed end-to-end cases, run first: staging pairs whose two sides are spelled differently but would denote the same
+# file if both were resolved in the scheduler's cwd -- the script runs after `cd <tempdir>`, so they are different files
+E2E_CORPUS = [
+    dict(tempdir=True, ins=[dict(remote="{D}/data.txt", local="data.txt", content="alias in\n", isdir=False)], outs=[],
+         stdout=True, nest="list", junk=[], indent="", mode="default"),
+    dict(tempdir=True, ins=[], outs=[dict(remote="{D}/result.txt", local="result.txt", how="staged", isdir=False)],
+         stdout=False, nest="list", junk=[], indent="    ", mode="default"),
+    dict(tempdir=True, ins=[dict(remote="{D}/indir", local="indir", content="dir content\n", isdir=True)],
+         outs=[dict(remote="{D}/outdir", local="outdir", how="staged", isdir=True)], stdout=True, nest="dict", junk=["EOF"], indent="", mode="bash"),
+    dict(tempdir=True, ins=[dict(remote="{D}/a.txt", local="./a.txt", content="dot slash\n", isdir=False)],
+         outs=[dict(remote="{D}/b.txt", local="./b.txt", how="staged", isdir=False)], stdout=False, nest="tuple", junk=[], indent="\t", mode="sh"),
+    dict(tempdir=False, ins=[dict(remote="{D}/in.remote", local="in.local", content="control\n", isdir=False)],
+         outs=[dict(remote="out.remote", local="out.local", how="staged", isdir=False),
+               dict(remote="{D}/self.txt", local="{D}/self.txt", how="self", isdir=False)], stdout=True, nest="list", junk=[], indent="", mode="default"),
+]
+
+
 def gen_e2e(rng):
+    """Spec of one end-to-end run.  `{D}` stands for the (absolute) working directory of the case = the scheduler's cwd."""
     n_in = rng.choice([0, 1, 1, 2, 3])
     n_out = rng.choice([0, 1, 1, 2])
-    names = ["in put", "it's", "a$b", "pl@in", "semi;colon", "é", "q\"uote", "star*", "back`tick`", "EOF"]
+    tempdir = rng.random() < 0.5
+    names = list(E2E_NAMES)
     rng.shuffle(names)
-    ins = [(names[i] + ".remote", names[i] + ".local" if rng.random() < 0.85 else names[i] + ".remote",
-            "content %d %s\n" % (i, rng.choice(["x", "$HOME", "`id`", "EOF"]))) for i in range(n_in)]
-    outs = [("o%d %s.remote" % (i, rng.choice(["a", "b'c", "d e"])), rng.choice(["staged", "staged", "self"])) for i in range(n_out)]
+    ins, outs = [], []
+    for i in range(n_in):
+        base, isdir = names[i], rng.random() < 0.25
+        if tempdir:
+            # the command runs in a fresh temp dir: remotes are absolute; the local side is relative to the temp dir and
+            # in half of the cases carries the very name the remote has in the scheduler's cwd
+            remote = "{D}/" + base + ".dat"
+            local = rng.choice([base + ".dat", "./" + base + ".dat"]) if rng.random() < 0.5 else base + ".local"
+        else:
+            remote = rng.choice(["", "{D}/"]) + base + ".remote"
+            local = base + ".local" if rng.random() < 0.85 else remote
+        ins.append(dict(remote=remote, local=local, content="content %d %s\n" % (i, rng.choice(["x", "$HOME", "`id`", "EOF"])), isdir=isdir))
+    for i in range(n_out):
+        base, isdir = "o%d %s" % (i, rng.choice(["a", "b'c", "d e"])), rng.random() < 0.25
+        how = rng.choice(["staged", "staged", "self"]) if not isdir else "staged"
+        if tempdir:
+            remote = "{D}/" + base + ".res"
+            local = rng.choice([base + ".res", "./" + base + ".res"]) if rng.random() < 0.5 else base + ".local"
+        else:
+            remote = rng.choice(["", "{D}/"]) + base + ".remote"
+            local = base + ".local"
+        if how == "self":
+            local = remote
+        outs.append(dict(remote=remote, local=local, how=how, isdir=isdir))
     junk = gen_lines(rng, rng.choice([0, 1, 3, 6]))
     return dict(ins=ins, outs=outs, junk=junk, stdout=rng.random() < 0.7, nest=rng.choice(["list", "dict", "tuple"]),
-                tempdir=False, indent=rng.choice(["", "    ", "\t"]), mode=rng.choice(["default", "default", "sh", "bash"]))
+                tempdir=tempdir, indent=rng.choice(["", "    ", "\t"]), mode=rng.choice(["default", "default", "sh", "bash"]))
 
 
 def check_e2e(ctx, cases, tmp):
@@ -546,37 +613,51 @@ def check_e2e(ctx, cases, tmp):
     import shlex
 
     from redun import File, Scheduler, script
-    from redun.scripting import prepare_command
+    from redun.file import Dir
+    from redun.scripting import ScriptError, prepare_command
     logging.getLogger("redun").setLevel(logging.CRITICAL)
     cwd0 = os.getcwd()
+    q = shlex.quote
     for ci, c in enumerate(cases):
-        d = tempfile.mkdtemp(dir=tmp)
+        d = os.path.realpath(tempfile.mkdtemp(dir=tmp))
         os.chdir(d)
+
+        def P(path, d=d):
+            return path.replace("{D}", d)
         try:
-            for remote, local, content in c["ins"]:
-                with open(remote, "w") as f:
-                    f.write(content)
+            for i in c["ins"]:
+                if i["isdir"]:
+                    os.makedirs(P(i["remote"]))
+                    with open(os.path.join(P(i["remote"]), "f.txt"), "w") as f:
+                        f.write(i["content"])
+                else:
+                    with open(P(i["remote"]), "w") as f:
+                        f.write(i["content"])
             lines = []
             sheb = SELF_PRINT[c["mode"]][0]
             if sheb:
                 lines.append(sheb)
             lines.append('cat "$0"')
-            # at command time: every input is staged, no output has been unstaged yet
-            for remote, local, content in c["ins"]:
-                lines.append("test -f %s || exit 41" % shlex.quote(local))
-            out_specs = []
-            for i, (remote, how) in enumerate(c["outs"]):
-                local = remote if how == "self" else remote[:-7] + ".local"
-                if how != "self":
-                    lines.append("test ! -e %s || exit 42" % shlex.quote(remote))
-                srcs = " ".join(shlex.quote(l) for _, l, _ in c["ins"]) or "/dev/null"
-                lines.append("cat %s | tr a-z A-Z > %s" % (srcs, shlex.quote(local)))
-                out_specs.append((remote, local, how))
+            # at command time, in the command's cwd: every input is staged, no output has been unstaged yet
+            srcs = []
+            for i in c["ins"]:
+                src = P(i["local"]) + ("/f.txt" if i["isdir"] else "")
+                srcs.append(src)
+                lines.append("test -f %s || { echo INPUT-NOT-STAGED %s >&2; exit 41; }" % (q(src), q(src)))
+            cat = "cat %s" % (" ".join(q(x) for x in srcs) or "/dev/null")
+            for o in c["outs"]:
+                if o["how"] != "self":
+                    lines.append("test ! -e %s || { echo OUTPUT-UNSTAGED-EARLY >&2; exit 42; }" % q(P(o["remote"])))
+                if o["isdir"]:
+                    lines.append("mkdir -p %s && %s | tr a-z A-Z > %s" % (q(P(o["local"])), cat, q(P(o["local"]) + "/f.txt")))
+                else:
+                    lines.append("%s | tr a-z A-Z > %s" % (cat, q(P(o["local"]))))
             lines.append("exit 0")
             lines += c["junk"]
             text = "\n" + "\n".join(c["indent"] + ln if ln.strip(" \t") else ln for ln in lines) + "\n"
-            inputs = [File(r).stage(l) for r, l, _ in c["ins"]]
-            out_leaves = [File(r) if how == "self" else File(r).stage(l) for r, l, how in out_specs]
+            inputs = [(Dir if i["isdir"] else File)(P(i["remote"])).stage(P(i["local"])) for i in c["ins"]]
+            out_leaves = [File(P(o["remote"])) if o["how"] == "self" else (Dir if o["isdir"] else File)(P(o["remote"])).stage(P(o["local"]))
+                          for o in c["outs"]]
             if c["stdout"]:
                 out_leaves = [File("-")] + out_leaves
             if c["nest"] == "list":
@@ -585,20 +666,34 @@ def check_e2e(ctx, cases, tmp):
                 outputs = (out_leaves, 5)
             else:
                 outputs = {"k%d" % i: v for i, v in enumerate(out_leaves)}
-            case = {"kind": "e2e", "spec": c, "text": text}
-            ctx.case(key=("e2e", text, repr(c["ins"]), repr(c["outs"])), sample={"text": text[:100]}, kind="e2e", n_inputs=len(inputs),
-                     n_outputs=len(out_specs), nest=c["nest"], bash_mode=c["mode"])
+            case = {"kind": "e2e", "spec": c, "text": text.replace(d, "{D}")}
+            alias = any(os.path.basename(x["local"]) == os.path.basename(x["remote"]) and x["local"] != x["remote"] for x in c["ins"] + c["outs"])
+            ctx.case(key=("e2e", case["text"], repr(c["ins"]), repr(c["outs"])), sample={"text": case["text"][:100]}, kind="e2e", n_inputs=len(inputs),
+                     n_outputs=len(c["outs"]), nest=c["nest"], bash_mode=c["mode"], e2e_tempdir=c["tempdir"], same_name_pair=alias,
+                     dirs=sum(1 for x in c["ins"] + c["outs"] if x["isdir"]))
             sched = Scheduler()
             sched.load()
             try:
-                res = sched.run(script(text, inputs=inputs, outputs=outputs))
+                expr = script(text, inputs=inputs, outputs=outputs, tempdir=c["tempdir"])
+                case["full_command"] = expr.args[0].replace(d, "{D}")
+                res = sched.run(expr)
             except Exception as e:  # noqa: BLE001
-                ctx.violation("C29-e2e-script-failed", "script() with local staging failed (an input was not staged before, or an output "
-                              "was unstaged before, the command ran)", case=case, expected="success", actual="%s: %s" % (type(e).__name__, e))
+                msg = e.message if isinstance(e, ScriptError) else str(e)
+                msg = msg.decode("utf8", "replace") if isinstance(msg, bytes) else str(msg)
+                if "INPUT-NOT-STAGED" in msg:
+                    ctx.violation("C29-e2e-input-not-staged", "script(): an input of a staging pair is not present in the command's working "
+                                  "directory when the command runs", case=case, expected="every input staged before the command",
+                                  actual=msg.replace(d, "{D}")[-400:])
+                elif "OUTPUT-UNSTAGED-EARLY" in msg:
+                    ctx.violation("C29-e2e-output-unstaged-early", "script(): an output exists at its remote path before the command ran",
+                                  case=case, expected="outputs unstaged after the command", actual=msg.replace(d, "{D}")[-400:])
+                else:
+                    ctx.violation("C29-e2e-script-failed", "script() with local staging failed", case=case, expected="success",
+                                  actual=("%s: %s" % (type(e).__name__, msg)).replace(d, "{D}")[-600:])
                 continue
             flat = res if c["nest"] == "list" else (res[0] if c["nest"] == "tuple" else list(res.values()))
-            want_upper = "".join(content for _, _, content in c["ins"]).upper()
-            problems = []
+            want_upper = "".join(i["content"] for i in c["ins"]).upper()
+            problems, missing = [], []
             if c["nest"] == "tuple" and (type(res) is not tuple or res[1] != 5):
                 problems.append("tuple shape lost: %r" % (res,))
             if c["nest"] == "dict" and (type(res) is not dict or list(res.keys()) != list(outputs.keys())):
@@ -606,17 +701,25 @@ def check_e2e(ctx, cases, tmp):
             if len(flat) != len(out_leaves):
                 problems.append("length %d != %d" % (len(flat), len(out_leaves)))
             else:
-                for got, leaf in zip(flat, out_leaves):
-                    if isinstance(leaf, File) and leaf.path == "-":
+                specs = ([None] if c["stdout"] else []) + c["outs"]
+                for got, leaf, o in zip(flat, out_leaves, specs):
+                    if o is None:
                         want = (prepare_command(text) + "\n").encode()
                         if got != want:
                             problems.append("stdout %r != command file %r" % (got[:200], want[:200]))
-                    else:
-                        rpath = leaf.path if isinstance(leaf, File) else leaf.remote.path
-                        if type(got) is not File or got.path != rpath:
-                            problems.append("output leaf %r, expected File(%r)" % (got, rpath))
-                        elif not os.path.exists(rpath) or open(rpath).read() != want_upper:
-                            problems.append("remote file %r missing or wrong content" % rpath)
+                        continue
+                    rpath = P(o["remote"])
+                    cls = Dir if o["isdir"] else File
+                    if type(got) is not cls or got.path != rpath:
+                        problems.append("output leaf %s, expected %s(%r)" % (show_v(got), cls.__name__, o["remote"]))
+                    fpath = os.path.join(rpath, "f.txt") if o["isdir"] else rpath
+                    if not os.path.isfile(fpath):
+                        missing.append(o["remote"])
+                    elif open(fpath).read() != want_upper:
+                        problems.append("remote %r has wrong content" % o["remote"])
+            if missing:
+                ctx.violation("C29-e2e-output-not-unstaged", "script() returned, but an output of a staging pair is not at its remote path",
+                              case=case, expected="every output unstaged to its remote path after the command", actual={"missing": missing})
             if problems:
                 ctx.violation("C29-e2e-result", "script() end-to-end: stdout / returned structure / remote files wrong", case=case,
                               expected="stdout = command file, remote files = upper-cased inputs", actual=problems)
@@ -646,7 +749,7 @@ def run(ctx):
         bash_cases += [gen_runnable(rng) for _ in range(ctx.n(50, 500))]
         check_bash(ctx, bash_cases, tmp)
         check_scripts(ctx, [gen_script_case(rng) for _ in range(ctx.n(250, 2500))])
-        check_e2e(ctx, [gen_e2e(rng) for _ in range(ctx.n(6, 80))], tmp)
+        check_e2e(ctx, list(E2E_CORPUS) + [gen_e2e(rng) for _ in range(ctx.n(6, 80))], tmp)
     finally:
         tempfile.tempdir = saved_tempdir
         shutil.rmtree(tmp, ignore_errors=True)
